@@ -253,4 +253,152 @@ example : ∃ l, charWindows [1, 2, 3, 4, 1] 3 1 = .ok l ∧ Tiles 5 0 l ∧
 example : ∃ l, byteWindows [1, 2, 3, 4, 1] 9 2 = .ok l :=
   byte_windows_fit [1, 2, 3, 4, 1] 9 2 (by decide) (by decide) (by decide)
 
+/-! ### the relational acceptance test `windowsAccept` (Model/Windows.lean) -/
+
+theorem tilesB_iff (n ws : Nat) (l : List Win) : tilesB n ws l = true ↔ Tiles n ws l := by
+  induction l generalizing ws with
+  | nil => simp [tilesB, Tiles]
+  | cons w rest ih =>
+    simp only [tilesB, Tiles, Bool.and_eq_true, beq_iff_eq, decide_eq_true_eq, ih, and_assoc]
+
+theorem ctxOkB_iff (lens : List Nat) (w : Win) : ctxOkB lens w = true ↔ CtxOK lens w := by
+  simp only [ctxOkB, CtxOK, Bool.and_eq_true, beq_iff_eq, decide_eq_true_eq, and_assoc]
+
+/-- `.error .tooWide` only arises when some character is wider than `maxB - 2*ctx`
+(contrapositive of `byte_windows_fit`) -/
+theorem byte_windows_err_wide (lens : List Nat) (maxB ctx : Nat) (hne : lens ≠ []) (hcfg : 2 * ctx < maxB)
+    (e : WinErr) (he : byteWindows lens maxB ctx = .error e) : ∃ l ∈ lens, maxB - 2 * ctx < l := by
+  apply Classical.byContradiction
+  intro hno
+  have hfit : ∀ l ∈ lens, l ≤ maxB - 2 * ctx := by
+    intro l hl
+    apply Classical.byContradiction
+    intro hgt
+    exact hno ⟨l, hl, by omega⟩
+  obtain ⟨l, hl⟩ := byte_windows_fit lens maxB ctx hne hcfg hfit
+  rw [hl] at he
+  cases he
+
+/-- the function model's own answer is accepted, for every non-empty text, every kind and every configuration
+(so the acceptance test never refuses the modelled code) -/
+theorem windowsModel_accepted (kind : Nat) (lens : List Nat) (maxLen ctx : Nat) (hne : lens ≠ []) (hk : kind ≤ 2) :
+    windowsAccept kind lens maxLen ctx
+      (match windowsModel kind lens maxLen ctx with | .ok ws => some ws | .error _ => none) = true := by
+  have h1 : lens.isEmpty = false := by cases lens <;> simp_all
+  match kind, hk with
+  | 0, _ =>
+    by_cases hcfg : 2 * ctx < maxLen
+    · obtain ⟨l, hl, ht, hc⟩ := char_windows_ok lens maxLen ctx hne hcfg
+      simp only [windowsModel, hl, windowsAccept]
+      have t := (tilesB_iff _ _ _).mpr ht
+      have c : l.all (ctxOkB lens) = true :=
+        List.all_eq_true.mpr (fun w hw => (ctxOkB_iff _ _).mpr (hc w hw).1)
+      have b : l.all (fun w => decide (w.ctxEnd - w.ctxStart ≤ maxLen)) = true :=
+        List.all_eq_true.mpr (fun w hw => decide_eq_true (hc w hw).2)
+      rw [t, c, b]; simp [hcfg]
+    · have he := (invalid_cfg_err lens maxLen ctx hne (by omega)).1
+      simp only [windowsModel, he, windowsAccept]
+      have : maxLen ≤ 2 * ctx := by omega
+      simp [this]
+  | 1, _ =>
+    by_cases hcfg : 2 * ctx < maxLen
+    · rcases byte_windows_ok lens maxLen ctx hne hcfg with he | ⟨l, hl, ht, hc⟩
+      · obtain ⟨x, hx, hwide⟩ := byte_windows_err_wide lens maxLen ctx hne hcfg _ he
+        simp only [windowsModel, he, windowsAccept]
+        have : lens.any (fun l => decide (maxLen - 2 * ctx < l)) = true :=
+          List.any_eq_true.mpr ⟨x, hx, decide_eq_true hwide⟩
+        simp [this]
+      · simp only [windowsModel, hl, windowsAccept]
+        have t := (tilesB_iff _ _ _).mpr ht
+        have c : l.all (ctxOkB lens) = true :=
+          List.all_eq_true.mpr (fun w hw => (ctxOkB_iff _ _).mpr (hc w hw).1)
+        have b : l.all (fun w => decide (w.bCtxEnd - w.bCtxStart ≤ maxLen)) = true :=
+          List.all_eq_true.mpr (fun w hw => decide_eq_true (hc w hw).2)
+        rw [t, c, b]; simp [hcfg]
+    · have he := (invalid_cfg_err lens maxLen ctx hne (by omega)).2
+      simp only [windowsModel, he, windowsAccept]
+      have : maxLen ≤ 2 * ctx := by omega
+      simp [this]
+  | 2, _ =>
+    obtain ⟨ht, hc⟩ := full_window_ok lens hne
+    simp only [windowsModel, h1, Bool.false_eq_true, if_false, windowsAccept]
+    have t := (tilesB_iff _ _ _).mpr ht
+    have c : (fullWindows lens).all (ctxOkB lens) = true :=
+      List.all_eq_true.mpr (fun w hw => (ctxOkB_iff _ _).mpr (hc w hw))
+    rw [t, c]; simp [fullWindows]
+
+/-- what acceptance of a list of windows means: the property's clauses -/
+theorem windowsAccept_ok_spec (kind : Nat) (lens : List Nat) (maxLen ctx : Nat) (ws : List Win)
+    (h : windowsAccept kind lens maxLen ctx (some ws) = true) :
+    Tiles lens.length 0 ws ∧ (∀ w ∈ ws, CtxOK lens w) ∧ ByteTiles lens 0 ws ∧
+    (kind = 0 → ∀ w ∈ ws, w.ctxEnd - w.ctxStart ≤ maxLen) ∧
+    (kind = 1 → ∀ w ∈ ws, w.bCtxEnd - w.bCtxStart ≤ maxLen) ∧
+    (kind < 2 → 2 * ctx < maxLen) := by
+  simp only [windowsAccept, Bool.and_eq_true, Bool.or_eq_true, decide_eq_true_eq] at h
+  obtain ⟨⟨⟨hcfg, ht⟩, hc⟩, hb⟩ := h
+  have ht' := (tilesB_iff _ _ _).mp ht
+  have hc' : ∀ w ∈ ws, CtxOK lens w := fun w hw => (ctxOkB_iff _ _).mp (List.all_eq_true.mp hc w hw)
+  have hbt : ByteTiles lens 0 ws := by
+    have := tiles_bytes lens 0 ws ht' hc'
+    simpa [byteOf] using this
+  refine ⟨ht', hc', hbt, ?_, ?_, ?_⟩
+  · intro hk; subst hk
+    intro w hw
+    simpa using List.all_eq_true.mp hb w hw
+  · intro hk; subst hk
+    intro w hw
+    simpa using List.all_eq_true.mp hb w hw
+  · intro hk
+    rcases hcfg with h2 | h2
+    · omega
+    · exact h2
+
+/-- an error is only accepted for an impossible configuration or (byte windows) a character that does not fit the
+smallest window -/
+theorem windowsAccept_err_spec (kind : Nat) (lens : List Nat) (maxLen ctx : Nat)
+    (h : windowsAccept kind lens maxLen ctx none = true) :
+    kind < 2 ∧ (maxLen ≤ 2 * ctx ∨ (kind = 1 ∧ ∃ l ∈ lens, maxLen - 2 * ctx < l)) := by
+  simp only [windowsAccept, Bool.and_eq_true, Bool.or_eq_true, decide_eq_true_eq, beq_iff_eq,
+    List.any_eq_true] at h
+  exact h
+
+/-! concrete observations for `lens = [1,2,1,1]`, byte windows, max 4, context 1 (byte offsets 0,1,3,4,5) -/
+section Examples
+/-- the model's answer: windows [0,2) (context [0,3)) and [2,4) -/
+private def exModel : List Win :=
+  [⟨0, 0, 2, 3, 0, 0, 3, 4⟩, ⟨2, 2, 4, 4, 3, 3, 5, 5⟩]
+/-- a different valid tiling with shorter windows: [0,1) [1,2) [2,3) [3,4) -/
+private def exShort : List Win :=
+  [⟨0, 0, 1, 1, 0, 0, 1, 1⟩, ⟨1, 1, 2, 2, 1, 1, 3, 3⟩, ⟨1, 2, 3, 4, 1, 3, 4, 5⟩, ⟨2, 3, 4, 4, 3, 4, 5, 5⟩]
+
+private theorem exModel_eq : windowsModel 1 [1, 2, 1, 1] 4 1 = .ok exModel := by
+  simp only [windowsModel, byteWindows, List.isEmpty_cons, Bool.false_eq_true, if_false]
+  rw [byteLoop]; simp [winLen, countUntil, mkWin, byteOf]
+  rw [byteLoop]; simp [winLen, countUntil, mkWin, byteOf]
+  rw [byteLoop]; simp [exModel]
+example : windowsAccept 1 [1, 2, 1, 1] 4 1 (some exModel) = true := by decide
+/-- the same, as an instance of the general theorem -/
+example : windowsAccept 1 [1, 2, 1, 1] 4 1 (some exModel) = true := by
+  have h := windowsModel_accepted 1 [1, 2, 1, 1] 4 1 (by decide) (by decide)
+  rw [exModel_eq] at h; exact h
+example : windowsAccept 1 [1, 2, 1, 1] 4 1 (some exShort) = true := by decide
+/-- a gap: character 2 is in no window -/
+example : windowsAccept 1 [1, 2, 1, 1] 4 1
+    (some [⟨0, 0, 2, 2, 0, 0, 3, 3⟩, ⟨3, 3, 4, 4, 4, 4, 5, 5⟩]) = false := by decide
+/-- an empty window -/
+example : windowsAccept 1 [1, 2, 1, 1] 4 1
+    (some [⟨0, 0, 2, 2, 0, 0, 3, 3⟩, ⟨2, 2, 2, 2, 3, 3, 3, 3⟩, ⟨2, 2, 4, 4, 3, 3, 5, 5⟩]) = false := by decide
+/-- a context of 5 bytes exceeds the maximum of 4 -/
+example : windowsAccept 1 [1, 2, 1, 1] 4 1
+    (some [⟨0, 0, 2, 2, 0, 0, 3, 3⟩, ⟨0, 2, 4, 4, 0, 3, 5, 5⟩]) = false := by decide
+/-- a wrong byte boundary: character 2 starts at byte 3, not 2 -/
+example : windowsAccept 1 [1, 2, 1, 1] 4 1
+    (some [⟨0, 0, 2, 2, 0, 0, 2, 2⟩, ⟨2, 2, 4, 4, 2, 2, 5, 5⟩]) = false := by decide
+/-- every character fits into `4 - 2·1 = 2` bytes: an error is refused -/
+example : windowsAccept 1 [1, 2, 1, 1] 4 1 none = false := by decide
+/-- impossible configuration `2 ≤ 2·1`: an error is accepted (and windows are refused) -/
+example : windowsAccept 1 [1, 2, 1, 1] 2 1 none = true := by decide
+example : windowsAccept 1 [1, 2, 1, 1] 2 1 (some exShort) = false := by decide
+end Examples
+
 end Tu.C16
